@@ -13,37 +13,37 @@ def Node.nodes : Node → List Node
   | .mk t tok f l a b => Node.mk t tok f l a b :: (a.nodes ++ b.nodes)
 
 /-- the two tables are exact inverses; the listed sites are exactly the break instructions -/
-theorem C08_tables_inverse (a : AST) : TablesInverse (gen a).code := by
-  sorry
+theorem C08_tables_inverse (a : AST) : TablesInverse (gen a).code :=
+  gen_tablesInverse a
 
 /-- no site is listed twice, no location twice, and no location has an empty site list -/
 theorem C08_no_duplicates (a : AST) :
     (∀ e ∈ (gen a).code.potBreaks, e.2.Nodup ∧ e.2 ≠ []) ∧
-    ((gen a).code.potBreaks.map (·.1)).Nodup ∧ ((gen a).code.lineInfo.map (·.1)).Nodup := by
-  sorry
+    ((gen a).code.potBreaks.map (·.1)).Nodup ∧ ((gen a).code.lineInfo.map (·.1)).Nodup :=
+  gen_noDuplicates a
 
 /-- the loaded program contains no enabled breakpoint (`BREAK`) -/
-theorem C08_no_break_opcode (a : AST) : Instr.brk ∉ (gen a).code.code := by
-  sorry
+theorem C08_no_break_opcode (a : AST) : Instr.brk ∉ (gen a).code.code :=
+  gen_noBreak a
 
 /-- hence the hypotheses of the debugger theorems (C05, C06, C17) hold for every compiled program -/
-theorem C08_sitesOK (a : AST) : SitesOK (gen a).code := by
-  sorry
+theorem C08_sitesOK (a : AST) : SitesOK (gen a).code :=
+  gen_sitesOK a
 
 /-- the hidden standard-macro file is never an available location -/
 theorem C08_no_std_lines (a : AST) :
-    ∀ bp ∈ (gen a).code.available, bp.file ≠ ConstGen.genStdFileName := by
-  sorry
+    ∀ bp ∈ (gen a).code.available, bp.file ≠ ConstGen.genStdFileName :=
+  gen_noStd a
 
 /-- every available location is the position of a node of the tree (node positions are copied
     from token positions by the parser) -/
 theorem C08_real_lines (a : AST) (h : a.ok = true) :
-    ∀ bp ∈ (gen a).code.available, ∃ n ∈ a.root.nodes, n.file = bp.file ∧ n.line = bp.line := by
-  sorry
+    ∀ bp ∈ (gen a).code.available, ∃ n ∈ a.root.nodes, n.file = bp.file ∧ n.line = bp.line :=
+  gen_realLines Node.nodes (fun _ _ _ _ _ _ => rfl) a h
 
 /-- a location can be enabled if and only if stepping can report it -/
 theorem C08_enable_iff_reportable (a : AST) (bp : BreakPoint) :
-    bp ∈ (gen a).code.available ↔ ∃ i, (gen a).code.lineAt i = some bp := by
-  sorry
+    bp ∈ (gen a).code.available ↔ ∃ i, (gen a).code.lineAt i = some bp :=
+  gen_enableIff a bp
 
 end Theo
